@@ -297,6 +297,7 @@ func realHelper(mode string, in any, out any) error {
 }
 
 func main() {
+	explore.BeforeExec = []func(){cdi.VerifResetGlobals}
 	for i, a := range os.Args {
 		if a == "-worker" {
 			debug.SetGCPercent(800)
